@@ -268,11 +268,11 @@ def cfg : Config :=
     receiveOnce := true, expCheck := true }
 /-- Expires = NTP 3999999999 = 1791011199 s after 1970 -/
 def fdt : FdtAbs :=
-  { expires := "3999999999", files := some [{ toi := "5", cc := none, tlen := 4, oti := some ⟨0, 4, 8⟩ }] }
+  { expires := "3999999999", files := some [{ toi := "5", cc := none, tlen := 4, oti := some { fec := 0, esl := 4, msbl := 8 } }] }
 /-- the FDT packet: instance 1, SCT = 1791011000 s -/
 def pF : Pkt :=
   { toi := 0, closeObject := false, closeSession := false, fdtId := some 1, sct := some 1791011000000000,
-    fti := some ⟨⟨0, 16, 64⟩, 10⟩, pid := some (0, 0), plen := 10, dlen := 50 }
+    fti := some ⟨{ fec := 0, esl := 16, msbl := 64 }, 10⟩, pid := some (0, 0), plen := 10, dlen := 50 }
 def pO : Pkt :=
   { toi := 5, closeObject := false, closeSession := false, fdtId := none, sct := none, fti := none,
     pid := some (0, 0), plen := 4, dlen := 20 }
